@@ -607,7 +607,8 @@ theorem yf5 : lastFind kSteps [(kType, a), (kExpires, b), (kReadme, c), (kKeys, 
 theorem yf6 : lastFind kInspect [(kType, a), (kExpires, b), (kReadme, c), (kKeys, d), (kSteps, e), (kInspect, f)] = some f := rfl
 end layoutmembers
 
-theorem keys_norm_injective (E : DocEnv K) (hE : EnvInjective E) {ks ks' : List (Str × K)}
+theorem keys_norm_injective (E : DocEnv K)
+    (hkey : ∀ k k', norm (E.keyToJson k) = norm (E.keyToJson k') → k = k') {ks ks' : List (Str × K)}
     (h1 : KeysSorted (ks.map Prod.fst)) (h2 : KeysSorted (ks'.map Prod.fst))
     (h : norm (keysToJson E ks) = norm (keysToJson E ks')) : ks = ks' := by
   unfold keysToJson at h
@@ -628,9 +629,13 @@ theorem keys_norm_injective (E : DocEnv K) (hE : EnvInjective E) {ks ks' : List 
       obtain ⟨x', y'⟩ := p'
       simp only at e1 e2
       subst e1
-      rw [hE.key y y' e2, ih e3]
+      rw [hkey y y' e2, ih e3]
 
-theorem layout_norm_injective (E : DocEnv K) (hE : EnvInjective E) {L L' : LayoutW K}
+/-- Layout encoder injective up to JSON normal form, given that the key writer is injective and that
+    the expiry writer tells these two expiries apart. -/
+theorem layout_norm_injective_of (E : DocEnv K)
+    (hkey : ∀ k k', norm (E.keyToJson k) = norm (E.keyToJson k') → k = k') {L L' : LayoutW K}
+    (htime : E.fmtTime L.expires = E.fmtTime L'.expires → L.expires = L'.expires)
     (hc : LayoutCanon E L) (hc' : LayoutCanon E L')
     (h : norm (layoutToJson E L) = norm (layoutToJson E L')) : L = L' := by
   obtain ⟨exp, readme, keys, steps, insp⟩ := L
@@ -645,13 +650,13 @@ theorem layout_norm_injective (E : DocEnv K) (hE : EnvInjective E) {L L' : Layou
   have e1 : exp = exp' := by
     have := look kExpires; rw [yf2, yf2] at this
     simp only [Option.map_some, Option.some.injEq, norm, JV.str.injEq] at this
-    exact hE.time _ _ this
+    exact htime this
   have e2 : readme = readme' := by
     have := look kReadme; rw [yf3, yf3] at this; simpa [norm] using this
   have e3 : keys = keys' := by
     have := look kKeys; rw [yf4, yf4] at this
     simp only [Option.map_some, Option.some.injEq] at this
-    exact keys_norm_injective E hE k1 k2 this
+    exact keys_norm_injective E hkey k1 k2 this
   have e4 : steps = steps' := by
     have := look kSteps; rw [yf5, yf5] at this
     simp only [Option.map_some, Option.some.injEq, norm, JV.arr.injEq, normList_map id] at this
@@ -662,6 +667,11 @@ theorem layout_norm_injective (E : DocEnv K) (hE : EnvInjective E) {L L' : Layou
     exact map_norm_injective (fun x y hxy => insp_norm_injective hxy) this
   subst e1 e2 e3 e4 e5
   rfl
+
+theorem layout_norm_injective (E : DocEnv K) (hE : EnvInjective E) {L L' : LayoutW K}
+    (hc : LayoutCanon E L) (hc' : LayoutCanon E L')
+    (h : norm (layoutToJson E L) = norm (layoutToJson E L')) : L = L' :=
+  layout_norm_injective_of E hE.key (hE.time _ _) hc hc' h
 
 end layoutinj
 
